@@ -861,6 +861,17 @@ func Check12(c *Case, env *Env) []verdict {
 				return []verdict{{sig: "wellformed-refused", what: fmt.Sprintf("every initializer is well-formed and opset is 13, but load failed (%v) and the tensor decoder refuses well-formed initializer %q: %s %v %s", o.err, name, o2.kind, o2.err, o2.pmsg)}}
 			}
 		}
+		if c.Reader != "" && c.Reader != "bytes" && (len(c.Faults) > 0 || c.ZipFail >= 0) {
+			// read through a container (file, pipe, archive) that carries a fault: if the very bytes of the model load
+			// when handed over directly, the refusal is about the container (a damaged archive entry, an entry whose
+			// attributes now say "directory") and not about a weight
+			if ob := guard(func() (err error) { _, err = gonnx.NewModelFromBytes(data); return }); ob.kind == "ok" {
+				if st != nil {
+					st.Probe("refused_because_of_the_container")
+				}
+				return nil
+			}
+		}
 		if nWell > 0 {
 			twin := proto.Clone(mp).(*onnx.ModelProto)
 			for i, tp := range twin.GetGraph().GetInitializer() {
